@@ -129,6 +129,7 @@ type roState struct {
 	kind roKind
 	obj  Obj
 	cds  int
+	path string // real path of an opened regular file (also when its expected content comes from ObjFor)
 }
 
 type woState struct {
@@ -1136,7 +1137,7 @@ func (m *Model) openFile(c *Conn, r Req, pr *pre, what string) error {
 				obj = o
 			}
 		}
-		m.ro = roState{kind: roObj, obj: obj, cds: 2352}
+		m.ro = roState{kind: roObj, obj: obj, cds: 2352, path: real}
 		if s := DetectCDSectorSize(real, fi.Size()); s > 0 {
 			m.ro.cds = s
 		}
@@ -1441,6 +1442,23 @@ func (m *Model) readCD(c *Conn, r Req, what string) error {
 			}
 		}
 	}
+	// received sectors are compared one by one through the object (which may admit several views, C13)
+	cdMatch := func(data []byte) (bool, int) {
+		if !known || m.ro.kind != roObj || m.ro.cds <= 0 {
+			return true, 0
+		}
+		for k := 0; k*2048 < len(data); k++ {
+			off := 24 + (int64(r.Start)+int64(k))*int64(m.ro.cds)
+			end := (k + 1) * 2048
+			if end > len(data) {
+				end = len(data)
+			}
+			if ok, d := objMatch(m.ro.obj, off, data[k*2048:end]); !ok {
+				return false, k*2048 + d
+			}
+		}
+		return true, 0
+	}
 	if r.Count == 0 && !(m.ro.kind == roObj && m.ro.cds > 0) {
 		return m.endHere(c)
 	}
@@ -1449,8 +1467,8 @@ func (m *Model) readCD(c *Conn, r Req, what string) error {
 		if err != nil {
 			return err
 		}
-		if known && !bytes.Equal(exp[:len(data)], data) {
-			return failf("read-prefix", "%s: received bytes differ from the expected sectors at +%d", what, firstDiff(exp, data))
+		if ok, d := cdMatch(data); !ok {
+			return failf("read-prefix", "%s: received bytes differ from the expected sectors at +%d", what, d)
 		}
 		if closed {
 			m.Ended = true
@@ -1469,8 +1487,8 @@ func (m *Model) readCD(c *Conn, r Req, what string) error {
 		if err != nil {
 			return err
 		}
-		if known && !bytes.Equal(exp, body) {
-			return failf("cd-bytes", "%s (sector size %d): data differs from the sectors' user bytes at +%d", what, m.ro.cds, firstDiff(exp, body))
+		if ok, d := cdMatch(body); !ok {
+			return failf("cd-bytes", "%s (sector size %d): data differs from the sectors' user bytes at +%d", what, m.ro.cds, d)
 		}
 		return nil
 	}
@@ -1485,8 +1503,8 @@ func (m *Model) readCD(c *Conn, r Req, what string) error {
 	if len(data) > len(exp) {
 		return failf("read-prefix", "%s: %d bytes received, at most %d exist", what, len(data), len(exp))
 	}
-	if known && !bytes.Equal(exp[:len(data)], data) {
-		return failf("read-prefix", "%s: received bytes are not a prefix of the expected sectors (diff at +%d)", what, firstDiff(exp, data))
+	if ok, d := cdMatch(data); !ok {
+		return failf("read-prefix", "%s: received bytes are not a prefix of the expected sectors (diff at +%d)", what, d)
 	}
 	return nil
 }
@@ -1738,7 +1756,7 @@ func (m *Model) touched(real string) {
 	if m.wo.open && (m.wo.path == real || strings.HasPrefix(m.wo.path, real+"/") || alias(m.wo.path)) {
 		m.wo.detached = true
 	}
-	if fo, ok := m.ro.obj.(fileObj); ok && m.ro.kind == roObj && (fo.path == real || strings.HasPrefix(fo.path, real+"/") || alias(fo.path)) {
+	if rp := m.ro.path; rp != "" && m.ro.kind == roObj && (rp == real || strings.HasPrefix(rp, real+"/") || alias(rp)) {
 		m.ro = roState{kind: roUnknown}
 	}
 	if (m.cwd.kind == cwdOpen || m.cwd.kind == cwdExhausted) && (filepath.Dir(real) == m.cwd.dir || real == m.cwd.dir || strings.HasPrefix(m.cwd.dir, real+"/")) {
